@@ -34,7 +34,7 @@ def cases(draw, prof):
     if plain:
         P['acc'] = True
     # a supported clef in force everywhere, so that the agnostic encodings of the result can be compared as well
-    doc = draw(D.documents(D.profile('full', kern_weight=4, force_clef=True, supported_clefs_only=True, **P)))
+    doc = draw(D.documents(D.profile('full', kern_weight=4, force_clef=True, supported_clefs_only=True, hidden_bars=True, **P)))
     if plain:
         # plain accidentals only: no natural sign, no display suffix
         for _, _, c in S.cells(doc):
